@@ -145,6 +145,14 @@ def generate(batch: str, r: Rng, idx: int, tier: str) -> Dict[str, Any]:
         feat.update({"timers": True, "imr_writes": True, "halt": idx % 14 == 0, "wait": True})
     n = r.child("len").choice([40, 60, 100, 160, 240] if executor == "rs-machine" else [40, 60, 100, 160])
     scn = machine.gen_machine_scenario(r, executor, feat, boundaries=n, faulty=faulty)
+    rx = r.child("extra")
+    if rx.chance(1, 2) and executor == "rs-machine":
+        # the whole flag byte travels through interrupt frames, not only C and Z (a Rust program can load all eight
+        # bits with POPU F; the Python lifter's F is the two flags, so nothing else is reachable there)
+        scn["regs"]["F"] = rx.below(256)
+    if rx.chance(1, 5):
+        scn["kb"] = dict(scn.get("kb") or {})
+        scn["kb"]["kb_irq"] = False             # keyboard interrupts switched off by the host (ON key and timers still work)
     rb = r.child("boot")
     if faulty and executor == "py-machine" and rb.chance(1, 5):
         # a boot phase: the firmware starts with the system stack pointer not loaded yet (S < 5) and interrupts
